@@ -97,7 +97,7 @@ def check(tier, seed, replay=None):
     try:
         run_translator("t2", [os.path.join(REPO, "primitive.go"), os.path.join(REPO, "gen_templates.go")], "gen/Tables.v", "T2(primitive.go, gen_templates.go)")
         translate_t1()
-        proof_step(run, "props/C12.v", ["C12_tables"])
+        proof_step(run, "props/C12.v", ["C12_tables", "C12_keys"])
     except BrokenTie as e:
         broken = e
     try:
